@@ -11,16 +11,16 @@ from specs.inbound import *
 from specs.api_entry import *
 from specs.session import *
 
-KEEP_HANDLE = ['_buffer', 'g_dispatched', 'g_firing', 'id', 'IDLE', 'CONNECTING', 'CONNECTED', 'protocol', 'factory', 'addr', 'transport',
+KEEP_HANDLE = ['g_base', '_buffer', 'g_dispatched', 'g_firing', 'id', 'IDLE', 'CONNECTING', 'CONNECTED', 'protocol', 'factory', 'addr', 'transport',
                '_pingReq', 'queuePublishTx', 'windowPublish', 'windowPubRelease', 'windowPubRx', 'windowSubscribe',
                'windowUnsubscribe', '_window', '_initialT', '_bandwith', '_factor', '_version', '_cleanStart',
                'onPublish', 'onDisconnection', 'onMqttConnectionMade', 'pdu', 'tr_closes']
-KEEP_PROCESS = ['_buffer', 'g_firing', 'id', 'IDLE', 'CONNECTING', 'CONNECTED', 'protocol', 'factory', 'addr', 'transport',
+KEEP_PROCESS = ['g_base', '_buffer', 'g_firing', 'id', 'IDLE', 'CONNECTING', 'CONNECTED', 'protocol', 'factory', 'addr', 'transport',
                 '_pingReq', 'queuePublishTx', 'windowPublish', 'windowPubRelease', 'windowPubRx', 'windowSubscribe',
                 'windowUnsubscribe', '_window', '_initialT', '_bandwith', '_factor', '_version', '_cleanStart',
                 'onPublish', 'onDisconnection', 'onMqttConnectionMade', 'pdu', 'tr_closes']
 
-KEEP_RECV = ['g_firing', 'id', 'IDLE', 'CONNECTING', 'CONNECTED', 'protocol', 'factory', 'addr', 'transport',
+KEEP_RECV = ['g_base', 'g_firing', 'id', 'IDLE', 'CONNECTING', 'CONNECTED', 'protocol', 'factory', 'addr', 'transport',
              '_pingReq', 'queuePublishTx', 'windowPublish', 'windowPubRelease', 'windowPubRx', 'windowSubscribe',
              'windowUnsubscribe', '_window', '_initialT', '_bandwith', '_factor', '_version', '_cleanStart',
              'onPublish', 'onDisconnection', 'onMqttConnectionMade', 'pdu', 'tr_closes']
@@ -104,11 +104,13 @@ def _(self: Ref['mqtt.client.pubsubs.MQTTProtocol'], packet: Bytes):
     hit = contains(S(self), mid)
     req = S(self)[mid]
     ensures(implies(acc and len(B) >= 2, self.transport.tr_aborts == na and out(self) == old(out(self))))
-    ensures(implies(acc and len(B) >= 2 and hit, not contains(S(self), mid) and req.deferred.d_fired and req.deferred.d_ok
-                    and is_list_ib(req.deferred.d_val) and len(as_list_ib(req.deferred.d_val)) == len(B) - 2
-                    and forall(lambda i: implies(0 <= i and i < len(B) - 2,
-                                                 as_list_ib(req.deferred.d_val)[i][0] == B[i + 2] % 128
-                                                 and as_list_ib(req.deferred.d_val)[i][1] == (B[i + 2] >= 128)))))
+    ensures(implies(acc and len(B) >= 2 and hit, not contains(S(self), mid)))
+    ensures(implies(acc and len(B) >= 2 and hit, req.deferred.d_fired and req.deferred.d_ok))
+    ensures(implies(acc and len(B) >= 2 and hit, is_list_ib(req.deferred.d_val) and len(as_list_ib(req.deferred.d_val)) == len(B) - 2))
+    ensures(implies(acc and len(B) >= 2 and hit,
+                    forall(lambda i: implies(0 <= i and i < len(B) - 2,
+                                             as_list_ib(req.deferred.d_val)[i][0] == B[i + 2] % 128
+                                             and as_list_ib(req.deferred.d_val)[i][1] == (B[i + 2] >= 128)))))
     ensures(implies(acc and len(B) >= 2 and not hit, no_new_fired()))
 
 
@@ -154,8 +156,10 @@ def _(self: Ref['mqtt.client.pubsubs.MQTTProtocol'], packet: Bytes):
     # delivered with exactly the fields its bytes carry
     ensures(implies(acc and self.transport.tr_aborts == na and q == 0, out(self) == old(out(self))))
     ensures(implies(acc and self.transport.tr_aborts == na and q == 1, out(self) == old(out(self)) + lb(sPUBACK(mid))))
-    ensures(implies(acc and self.transport.tr_aborts == na and q == 2, out(self) == old(out(self)) + lb(sPUBREC(mid)) and cb_unchanged() and contains(X(self), mid)
-                    and X(self)[mid].qos == 2 and utf8(X(self)[mid].topic) == B[2:2 + tl] and X(self)[mid].payload == B[tl + 4:]))
+    ensures(implies(acc and self.transport.tr_aborts == na and q == 2, out(self) == old(out(self)) + lb(sPUBREC(mid))))
+    ensures(implies(acc and self.transport.tr_aborts == na and q == 2, cb_unchanged() and contains(X(self), mid)))
+    ensures(implies(acc and self.transport.tr_aborts == na and q == 2, X(self)[mid].qos == 2 and X(self)[mid].payload == B[tl + 4:]))
+    ensures(implies(acc and self.transport.tr_aborts == na and q == 2, utf8(X(self)[mid].topic) == B[2:2 + tl]))
     ensures(implies(acc and self.transport.tr_aborts == na and q == 0 and is_func(self.onPublish),
                     cb_appended(self.onPublish, utf8dec(B[2:2 + tl]), B[tl + 2:], 0, (packet[0] // 8) % 2 == 1, packet[0] % 2 == 1, None)))
     ensures(implies(acc and self.transport.tr_aborts == na and q == 1 and is_func(self.onPublish),
